@@ -108,6 +108,11 @@ class Report:
             sys.stdout.write(l + '\n')
         for b in self.broken:
             sys.stdout.write('ANALYSIS-BROKEN property=%s %s\n' % (self.prop, b))
+        dump = os.environ.get('HEXSA_DUMP_VIOLATIONS')
+        if dump:
+            with open(dump, 'w') as fh:
+                json.dump([{'property': self.prop, 'rule': i.rule, 'instance': i.key, 'where': i.where, 'detail': i.detail}
+                           for i in viol], fh, indent=1)
         n_ok = sum(1 for i in self.instances if i.ok)
         nontriv = len({(i.rule, i.key) for i in self.instances if i.nontrivial})
         samples = []
